@@ -248,7 +248,7 @@ func (p *Program) FieldWrites(f *types.Var) []Site {
 	for _, fn := range p.AllFuncs() {
 		EachInstr(fn, func(in ssa.Instruction) {
 			if _, ok := p.StoredValue(in, f); ok {
-				out = append(out, Site{fn, in, f.Name()})
+				out = append(out, Site{fn, in, fieldDisplayName(f)})
 			}
 		})
 	}
@@ -260,7 +260,7 @@ func (p *Program) FieldWritesIn(fn *ssa.Function, f *types.Var) []Site {
 	var out []Site
 	EachInstr(fn, func(in ssa.Instruction) {
 		if _, ok := p.StoredValue(in, f); ok {
-			out = append(out, Site{fn, in, f.Name()})
+			out = append(out, Site{fn, in, fieldDisplayName(f)})
 		}
 	})
 	return out
@@ -279,7 +279,7 @@ func (p *Program) AddrEscapes(f *types.Var) []Site {
 			}
 			for _, ref := range *fa.Referrers() {
 				if !p.benignAddrUse(ref, fa, 0) {
-					out = append(out, Site{fn, ref, f.Name()})
+					out = append(out, Site{fn, ref, fieldDisplayName(f)})
 				}
 			}
 		})
@@ -358,12 +358,12 @@ func (p *Program) MapWrites(f *types.Var) []Site {
 			switch x := in.(type) {
 			case *ssa.MapUpdate:
 				if isF(x.Map) {
-					out = append(out, Site{fn, in, f.Name() + "[k]=v"})
+					out = append(out, Site{fn, in, fieldDisplayName(f) + "[k]=v"})
 				}
 			case ssa.CallInstruction:
 				cc := x.Common()
 				if b, ok := cc.Value.(*ssa.Builtin); ok && b.Name() == "delete" && len(cc.Args) > 0 && isF(cc.Args[0]) {
-					out = append(out, Site{fn, in, "delete(" + f.Name() + ")"})
+					out = append(out, Site{fn, in, "delete(" + fieldDisplayName(f) + ")"})
 				}
 			}
 		})
